@@ -13,7 +13,8 @@
    and the protocol-level obligations only a real kernel exercises (the kernel's own reference accounting):
      Refs     no request names an inode number that is not held by the kernel (handed out and not yet forgotten);
               a FORGET never takes more references than were handed out; after the kernel let go of everything,
-              the server's inode table holds exactly the inodes still referenced (C08's statement);
+              while the client is idle the server's lookup count of every inode equals the kernel's; after the kernel
+              let go of everything the server's inode table holds exactly the inodes still referenced (C08's statement);
      Handles  a handle is never handed out while it is open; RELEASE names an open handle of that inode; every
               handle is released by the end of the session.
 
